@@ -235,6 +235,7 @@ def c18(ctx):
     purity.r_state_closure(ctx, SW + 'create_random_shuffles', SW + 'encode', SW + 'decode')
     misc2.r_shuf(ctx)
     purity.r_pure(ctx, [SW + 'create_random_shuffles'], floor=1)
+    purity.r_pure(ctx, [SW + 'encode', SW + 'decode'], only_params=('shuffles',), floor=2)   # the shared table is only read
     walk.r_sel(ctx)
     walk.r_walk(ctx, [SW + 'encode', SW + 'decode'], {SW + 'encode': 2, SW + 'decode': 2})    # with a table the strand still is a walk
 
